@@ -5,9 +5,9 @@ class C36(Prop):
     pid = "C36"
     check_mod = "C36"
     drivers = [dict(pkg="internal/metrics", test="TestVerifC36")]
-    n_quick = 250
+    n_quick = 150
     n_thorough = 8000
-    shard = 60
+    shard = 25
     ready = True
     rule = ("the real onMetrics handler with stub path manager / WebRTC server returning generated entities (0-3 paths with "
             "readers, 0-2 sessions) whose names, paths and remote addresses are client-style strings: quotes, backslashes, "
